@@ -157,6 +157,18 @@ async fn one_config(a: Args, idx: usize, proto: Proto, transport: Transport, per
         rep.mon("upload_and_close_flows", ups.len() as u64);
         results.extend(run_batch(reg.clone(), &d, target.port, ups, 8, Duration::from_secs(40)).await);
     }
+    // full-duplex bulk with one end that reads nothing until it has written everything: 12 MiB each way is far more than the
+    // socket buffers along the path hold, so the direction towards the deaf end stalls - and the other one must go on
+    // (a relay that drives both directions from one loop, or waits for a write while it should be reading, stops for good)
+    {
+        let big = if a.thorough { 24 << 20 } else { 12 << 20 };
+        let duplex = vec![
+            FlowSpec { id: (idx as u64) << 16 | 4000, kind: kinds[idx % kinds.len()], c2s: big, s2c: big, write_c: 65536, write_s: 65536, pause_ms: 0, pattern: Pattern::DeafApp, closer: Closer::AppAfterAll },
+            FlowSpec { id: (idx as u64) << 16 | 4001, kind: kinds[(idx + 1) % kinds.len()], c2s: big, s2c: big, write_c: 65536, write_s: 65536, pause_ms: 0, pattern: Pattern::DeafTarget, closer: Closer::AppAfterAll },
+        ];
+        rep.mon("full_duplex_bulk_flows_with_a_deaf_end", duplex.len() as u64);
+        results.extend(run_batch(reg.clone(), &d, target.port, duplex, 2, Duration::from_secs(60)).await);
+    }
     // the wait for the late answer does not occupy a slot: other configurations run meanwhile
     drop(permit);
     match late.await {
